@@ -37,7 +37,23 @@ Items(G, w) == DeriveFix(G, w, {})
 CfgAccepts(G, w) == <<G.start, 0, Len(w)>> \in Items(G, w)
 (* variables deriving w[i..j] (1-based, inclusive) *)
 CellSem(G, w, i, j) == {A \in G.V : <<A, i - 1, j>> \in Items(G, w)}
-CfgLangUpTo(G, S, n) == {w \in WordsUpTo(S, n) : CfgAccepts(G, w)}
+(* Rules mentioning an unproductive variable can never take part in a derivation *)
+(* of a terminal word, and rules of variables unreachable from the start cannot  *)
+(* matter either.  Dropping them first (a fix-point on variables, not on words)  *)
+(* keeps the language and makes grammars with many useless variables - the       *)
+(* triple construction for PDAs - cheap.  Checked against CfgAccepts in Lemmas.  *)
+RECURSIVE ProdFix(_, _)
+ProdFix(G, Pr) ==
+  LET new == {r[1] : r \in {r \in Rules(G) : \A k \in DOMAIN r[2] : ~IsVar(r[2][k]) \/ r[2][k][2] \in Pr}} \ Pr
+  IN IF new = {} THEN Pr ELSE ProdFix(G, Pr \cup new)
+Pruned(G) ==
+  LET Pr == ProdFix(G, {})
+      good == {r \in Rules(G) : r[1] \in Pr /\ \A k \in DOMAIN r[2] : ~IsVar(r[2][k]) \/ r[2][k][2] \in Pr}
+      edges == UNION {{<<r[1], r[2][k][2]>> : k \in {k \in DOMAIN r[2] : IsVar(r[2][k])}} : r \in good}
+      reach == ReachSet(edges, {G.start})
+  IN [G EXCEPT !.R = SetToSeq({r \in good : r[1] \in reach})]
+CfgLangUpTo(G, S, n) == LET H == Pruned(G) IN {w \in WordsUpTo(S, n) : CfgAccepts(H, w)}
+CfgLangUpToDef(G, S, n) == {w \in WordsUpTo(S, n) : CfgAccepts(G, w)}
 
 (* the library's notion of Chomsky normal form (CFG.is_chomsky) *)
 RuleIsCNF(G, r) ==
